@@ -23,6 +23,9 @@ func init() {
 		if len(a) >= 3 && a[0] == "hist" {
 			c02hist(c, a[1], a[2:])
 		}
+		if len(a) >= 3 && a[0] == "sock" {
+			c02sockHist(c, a[1], a[2:])
+		}
 		if len(a) == 5 && a[0] == "pair" {
 			c02case(c, "C02", c02parseFlags(a[1]), c02parseEPs(a[2]), c02parseEPs(a[3]), c02parseScript(a[4]))
 		}
@@ -1000,6 +1003,10 @@ func c02cookieHistRandom(c *ctx, r *gen.Rng, n int) {
 }
 
 func runC02(c *ctx) {
+	if os.Getenv("HV_C02_ONLY") == "sock" { // development aid: the sock mode alone
+		runC02Sock(c, gen.New(c.seed))
+		return
+	}
 	f := c02flags{dyn: true, same: true, block: 1, iw: 1}
 	ep := func(name, ip string, en bool, w int) c02ep {
 		port := 8080
@@ -1076,4 +1083,6 @@ func runC02(c *ctx) {
 		nch = 1500
 	}
 	c02cookieHistRandom(c, r.Fork(), nch)
+	// real socket clients against worker generations behind real unix sockets (c02sock.go): own fork, last
+	runC02Sock(c, r.Fork())
 }
